@@ -196,7 +196,28 @@ fn evaluate_source(
     Ok(())
 }
 
-fn main() -> ! {
+/// Stack size of the thread that runs the interpreter.
+///
+/// Evaluation is recursive: every nested expression and every Blots call consumes native stack,
+/// and only calls are counted against the call-depth limit. With the default 8 MiB main-thread
+/// stack a function body of ordinary nesting overflows the stack (and aborts the process) long
+/// before 1000 nested calls are reached; with this much room the limit is what stops runaway
+/// recursion. The memory is only reserved, not committed, until it is actually used.
+const INTERPRETER_STACK_SIZE: usize = 1024 * 1024 * 1024;
+
+fn main() {
+    let interpreter = std::thread::Builder::new()
+        .name("main".to_string())
+        .stack_size(INTERPRETER_STACK_SIZE)
+        .spawn(|| run())
+        .expect("failed to start the interpreter thread");
+
+    // `run` always ends the process itself; getting here means it panicked.
+    let _ = interpreter.join();
+    std::process::exit(101);
+}
+
+fn run() -> ! {
     // Handle shell completion generation
     if let Some(shell) = &ARGS.completions {
         let mut cmd = cli::Args::command();
